@@ -286,13 +286,21 @@ where
     ) -> Result<FlipInfo<D>, FlipError> {
         // k=1 moves change the vertex set behind the insertion caches' back; drop them so
         // duplicate detection re-indexes the vertices lazily (as `as_triangulation_mut` does).
-        self.invalidate_insertion_caches();
-        self.tri.flip_k1_insert(cell_key, vertex)
+        // A refused move changes nothing, so it must not change the caches either: a failed
+        // call has to be invisible to later insertions (locate hint included).
+        let result = self.tri.flip_k1_insert(cell_key, vertex);
+        if result.is_ok() {
+            self.invalidate_insertion_caches();
+        }
+        result
     }
 
     fn flip_k1_remove(&mut self, vertex_key: VertexKey) -> Result<FlipInfo<D>, FlipError> {
-        self.invalidate_insertion_caches();
-        self.tri.flip_k1_remove(vertex_key)
+        let result = self.tri.flip_k1_remove(vertex_key);
+        if result.is_ok() {
+            self.invalidate_insertion_caches();
+        }
+        result
     }
 
     fn flip_k2(&mut self, facet: FacetHandle) -> Result<FlipInfo<D>, FlipError> {
